@@ -41,9 +41,25 @@ def run(repo, rep, tier):
                         "PyArray_DATA of the input")
     eng = Engine(repo)
     iters = eng.solve()
+    entries = python_part(repo, rep, eng, iters, "R-C17-1")
+    native_part(repo, rep)
+    rep.trust("xarray 2026.7 / numpy 2.5 aliasing semantics as tabulated in sa/xrmodel.py (DESIGN section 3.2)")
+    rep.trust("Python ast; clang 14 JSON AST")
+    rep.assume("fancy (list/array) isel copies every variable it returns; variables not carrying the indexed dimension "
+               "are treated as copied too (they are the same Variable objects in xarray)")
+    rep.assume("library calls not in the mutator table (sa/xrmodel.py) do not modify their arguments")
+    rep.note("dask-backed inputs are covered a fortiori: lazy arrays are immutable")
+    return ("Static interprocedural effect analysis over the whole package: every function is abstractly interpreted "
+            "over an alias domain that tracks, per value, which caller-owned container / variable object / buffer / "
+            "coordinate object each of its places may be identical with (API model of xarray/numpy measured once); "
+            "write sinks (item, attribute, .values, augmented assignment, in-place methods, out=, inplace=True) record "
+            "effects, summaries are propagated through resolved calls (accessor hops, plugins, constructors, apply_ufunc "
+            "kernels) to a fixed point; obligation per public entry point = no effect on its own parameters/receiver. "
+            "Plus a clang-AST rule that the C routine never stores through its input buffer.")
+
+
+def python_part(repo, rep, eng, iters, RULE):
     entries = [fi for fi in repo.all_funcs() if is_entry(fi)]
-    if tier == "quick":
-        pass
     nparams = 0
     nviol = 0
     for fi in entries:
@@ -72,12 +88,12 @@ def run(repo, rep, tier):
             roots = sorted({x[0] for x in lst})
             places = sorted({x[1] for x in lst})
             nviol += 1
-            rep.fail("R-C17-1", eff.file, eff.line, fi.qualname,
+            rep.fail(RULE, eff.file, eff.line, fi.qualname,
                      f"{cons}  [writes {','.join(places)} of {','.join(roots)}]",
                      f"{eff.what}; the written place may be shared with caller-owned {', '.join(roots)} of "
                      f"{fi.short}", path=list(eff.via))
         if not bad:
-            rep.ok("R-C17-1", f"{fi.file}:{fi.node.lineno} {fi.short}",
+            rep.ok(RULE, f"{fi.file}:{fi.node.lineno} {fi.short}",
                    f"{len(own) - 1} parameter(s) + receiver: no write effect reaches them",
                    f"{len(s.effects)} effect(s) in summary, all on fresh or own objects", nontrivial=bool(s.effects) or len(own) > 1)
     rep.analysed.update({
@@ -85,11 +101,15 @@ def run(repo, rep, tier):
         "parameters": nparams, "sinks_examined": eng.sinks, "fixpoint_iterations": iters,
         "resolved_calls": eng.resolved, "unresolved_calls": eng.unresolved,
     })
-    rep.floor("R-C17-1", "entry points", len(entries), 150)
-    rep.floor("R-C17-1", "write sinks examined", eng.sinks, 150)
+    rep.floor(RULE, "entry points", len(entries), 150)
+    rep.floor(RULE, "write sinks examined", eng.sinks, 150)
     for q, why in EXEMPT.items():
         rep.note(f"exempt by table: {q}: {why}")
 
+    return entries
+
+
+def native_part(repo, rep):
     # ---- R-C17-2 ------------------------------------------------------------------------------
     core = CFile(os.path.join(repo.root, SPECPART_C))
     params = core.params("partition")
@@ -137,19 +157,6 @@ def run(repo, rep, tier):
                 rep.fail("R-C17-2", WRAP_C, wrap.line(n), "specpart", wrap.text(n)[:120],
                          "the wrapper writes into the input array's data")
     rep.ok("R-C17-2", WRAP_C, f"input pointer '{inptr[1]}'", "only read / passed to partition()")
-    rep.trust("xarray 2026.7 / numpy 2.5 aliasing semantics as tabulated in sa/xrmodel.py (DESIGN section 3.2)")
-    rep.trust("Python ast; clang 14 JSON AST")
-    rep.assume("fancy (list/array) isel copies every variable it returns; variables not carrying the indexed dimension "
-               "are treated as copied too (they are the same Variable objects in xarray)")
-    rep.assume("library calls not in the mutator table (sa/xrmodel.py) do not modify their arguments")
-    rep.note("dask-backed inputs are covered a fortiori: lazy arrays are immutable")
-    return ("Static interprocedural effect analysis over the whole package: every function is abstractly interpreted "
-            "over an alias domain that tracks, per value, which caller-owned container / variable object / buffer / "
-            "coordinate object each of its places may be identical with (API model of xarray/numpy measured once); "
-            "write sinks (item, attribute, .values, augmented assignment, in-place methods, out=, inplace=True) record "
-            "effects, summaries are propagated through resolved calls (accessor hops, plugins, constructors, apply_ufunc "
-            "kernels) to a fixed point; obligation per public entry point = no effect on its own parameters/receiver. "
-            "Plus a clang-AST rule that the C routine never stores through its input buffer.")
 
 
 def _rooted_in(t, name):
